@@ -24,6 +24,7 @@ func init() {
 		Run: runC18,
 		Controls: []Control{
 			{Name: "optional-attributes-tail-dropped", File: "protocols/bgp/packet/path_attributes.go", Old: "\toptionals := last.AddOptionalPathAttributes(p)\n\n\tlast = optionals\n", New: "\tlast.AddOptionalPathAttributes(p)\n", Expect: "appended-tail-is-used"},
+			{Name: "removal-by-decision-equality", File: "route/route.go", Old: "\t\tif paths[j].Compare(remove) {\n", New: "\t\tif paths[j].Equal(remove) {\n", Expect: "decision-equality-is-not-identity"},
 			{Name: "entry-deleted-after-the-send", File: "protocols/bgp/server/update_sender.go", Old: "\t\t\tdelete(u.toSend, key)\n\t\t\tu.sendMu.Lock()\n\t\t\tu.toSendMu.Unlock()\n\n\t\t\tu.sendUpdates(pathAttrs, updatesPrefixes, pathID)\n\t\t\tu.sendMu.Unlock()\n\t\t\tu.toSendMu.Lock()", New: "\t\t\tu.sendMu.Lock()\n\t\t\tu.toSendMu.Unlock()\n\n\t\t\tu.sendUpdates(pathAttrs, updatesPrefixes, pathID)\n\t\t\tu.sendMu.Unlock()\n\t\t\tu.toSendMu.Lock()\n\t\t\tdelete(u.toSend, key)", Expect: "entry-taken-in-one-critical-section"},
 			{Name: "serializer-rejects-full-message", File: "protocols/bgp/packet/update.go", Old: "\tif totalLength > 4096 {", New: "\tif totalLength >= MaxLen {", Expect: "full-message-not-rejected"},
 			{Name: "refactor-gate-uses-constant", Silent: true, File: "protocols/bgp/packet/update.go", Old: "\tif totalLength > 4096 {", New: "\tif totalLength >= MaxLen+1 {"},
@@ -140,6 +141,7 @@ func scenarioString(sc map[string]bool) string {
 }
 
 func runC18(c *core.Ctx) {
+	decisionEqualityIsNotIdentity(c, "decision-equality-is-not-identity")
 	p := c.P
 	// the serializer's gate is not tighter than the budget the sender fills messages to: a message of exactly 4096 octets passes
 	if f := c.MustFunc(pktPkg + ".(*BGPUpdate).SerializeUpdate"); f != nil {
